@@ -60,6 +60,7 @@ func (p *Prog) verifyFunction(fn *ssa.Function, con *Contract) (res *FnResult) {
 	res.Loops = len(findLoops(fn))
 	for _, o := range res.Obls {
 		o.Query = res.Header + o.Query
+		o.HeapSorts = S.heapSort
 	}
 	return
 }
@@ -112,6 +113,7 @@ func (e *Enc) encodeTop() {
 		f.vals[p] = Val{T: n}
 		f.args = append(f.args, Val{T: n})
 		e.inputs = append(e.inputs, n)
+		e.inputBounds(n, p.Type(), heap)
 	}
 	for _, fv := range fn.FreeVars {
 		n := q("fv!" + fv.Name())
@@ -122,8 +124,36 @@ func (e *Enc) encodeTop() {
 		}
 		f.vals[fv] = Val{T: n}
 	}
+	if fn.Parent() != nil {
+		st := q("self!closure")
+		e.decl(st, "Int")
+		e.assert(fmt.Sprintf("(and (> %s 0) (= (fncode %s) (fncode %s)))", st, st, e.fnId(fn)))
+		f.selfTerm = st
+	} else {
+		f.selfTerm = e.fnId(fn)
+	}
 	f.entry = heap.clone()
 	f.heap = heap
+	isInit := fn.Name() == "init" && fn.Signature.Recv() == nil && fn.Parent() == nil
+	if isInit && fn.Pkg != nil {
+		if g, ok := fn.Pkg.Members["init$guard"].(*ssa.Global); ok {
+			gv := e.S.globalVar(fn.Pkg.Pkg.Path(), g.Name(), g.Type().(*types.Pointer).Elem())
+			e.assert(not(e.hget(heap, gv)))
+			e.note("package initialiser verified for its one real execution (init$guard false at entry)")
+		}
+	}
+	if !isInit && fn.Pkg != nil {
+		genv := f.specEnv(heap, nil, nil)
+		for _, gi := range e.P.specs.GlobalInv {
+			if gi.PkgPath != fn.Pkg.Pkg.Path() {
+				continue
+			}
+			if t, err := genv.evalBool(gi.C.Expr); err == nil {
+				e.assert(t)
+				e.note("global invariant assumed at entry (proved for init, write-once checked): " + gi.C.Src)
+			}
+		}
+	}
 	if e.con != nil {
 		env := f.specEnv(heap, nil, nil)
 		for _, g := range e.con.Ghosts {
@@ -150,4 +180,33 @@ func (e *Enc) encodeTop() {
 		e.addReach("entry", "true", fn.Pos())
 	}
 	f.run("true", heap)
+}
+
+// inputBounds records soft bounds (small strings, small integers) on a
+// function input; replay tries to find a model within them first.
+func (e *Enc) inputBounds(term string, t types.Type, heap *Heap) {
+	switch u := t.Underlying().(type) {
+	case *types.Basic:
+		if u.Info()&types.IsString != 0 {
+			fmt.Fprintf(&e.bounds, "(assert (and (<= (s_len %s) 40) (<= (s_off %s) 8)))\n", term, term)
+			// prefer printable ASCII (plus tab / newline): utf8 decoding is then fully determined by the assumed contracts
+			for k := 0; k < 40; k++ {
+				c := fmt.Sprintf("(str_at %s %d)", term, k)
+				fmt.Fprintf(&e.bounds, "(assert (or (and (<= 32 %s) (<= %s 126)) (= %s 10) (= %s 9)))\n", c, c, c, c)
+			}
+		} else if u.Info()&types.IsInteger != 0 {
+			fmt.Fprintf(&e.bounds, "(assert (and (<= (- 64) %s) (<= %s 64)))\n", term, term)
+		}
+	case *types.Slice:
+		fmt.Fprintf(&e.bounds, "(assert (and (<= (sl_len %s) 16) (<= (sl_cap %s) 16) (<= (sl_off %s) 4)))\n", term, term, term)
+	case *types.Pointer:
+		if _, st := structKey(u.Elem()); st != nil {
+			for i := 0; i < st.NumFields(); i++ {
+				ft := st.Field(i).Type()
+				if b, ok := ft.Underlying().(*types.Basic); ok && (b.Info()&types.IsString != 0 || b.Info()&types.IsInteger != 0) {
+					e.inputBounds(fmt.Sprintf("(select %s %s)", e.hget(heap, e.S.fieldVar(u.Elem(), i)), term), ft, heap)
+				}
+			}
+		}
+	}
 }
